@@ -258,6 +258,10 @@ def _model_spec(rng):
 
 def gen_adirect(rng):
     spec = _model_spec(rng)
+    if spec['mseed'] % 5 == 0:
+        # summaries in wildly different units (1e-20 ... 1): the scale is whatever the population standard deviation is,
+        # also when it is far below machine epsilon in absolute terms
+        spec['smin'], spec['smax'], spec['offs'] = 1e-20, 1.0, min(spec['offs'], 50.0)
     rounds = []
     for _ in range(int(rng.integers(1, 5))):
         n = int(rng.choice([2, 3, 5, 8, 17, 40, 60]))
